@@ -123,7 +123,7 @@ class FsAudit:
         if self.veto is not None:
             self.active = False
             try:
-                block = self.veto(ev, norm)
+                block = self.veto(ev, norm, extra)
             finally:
                 self.active = True
             if block:
